@@ -27,6 +27,105 @@ impl Controller for DieAt {
     }
 }
 
+/// Fails call `k1` (if it has kind `kind`) as told, then dies instead of executing call `k2`.
+pub struct FailThenDie {
+    pub k1: u64,
+    pub kind: shim::Kind,
+    pub action: Action,
+    pub k2: u64,
+    pub n: AtomicU64,
+}
+
+impl Controller for FailThenDie {
+    fn before(&self, ev: &Ev) -> Action {
+        let i = self.n.fetch_add(1, SeqCst);
+        if i == self.k1 && ev.kind == self.kind {
+            return self.action;
+        }
+        if i == self.k2 {
+            return Action::Die;
+        }
+        Action::Proceed
+    }
+}
+
+/// An error path is a path too: a publication step (rename/link) is refused (EXDEV, EMLINK, ...), the operation
+/// does whatever it does about that, and the process dies at any later call.  Same oracle as `crash_at`.
+fn fault_then_crash_section(tier: Tier, shard: Shard, rep: &mut Report, no: &mut u64) {
+    use crate::props::c18::{plausible, FailAt};
+    use std::sync::Mutex;
+    for scn in scn::all_scenarios() {
+        if scn.debris() || matches!(scn.op.as_str(), "get" | "touch" | "accept") {
+            continue;
+        }
+        let (n, trace, _res) = fault_free(&scn);
+        for k1 in 0..n {
+            if !matches!(trace[k1].kind, shim::Kind::Rename | shim::Kind::Link) {
+                continue;
+            }
+            let actions: Vec<Action> = if tier == Tier::Thorough { plausible(&trace[k1], false) } else { vec![Action::Fail(libc::EXDEV)] };
+            for a in actions {
+                // the faulted, crash-free run tells how many calls follow
+                let w = scn::setup(&scn);
+                let cache = w.cache();
+                let force = w.force_maintenance;
+                let ctl = Arc::new(FailAt { faults: vec![(k1 as u64, a)], kinds: vec![Some(trace[k1].kind)], n: AtomicU64::new(0), hit: Mutex::new(vec![]) });
+                shim::set_controller(Some(ctl.clone()));
+                let (_r, t) = run::as_participant(0, 0, || {
+                    if force {
+                        run::trigger_fire_next(u64::MAX);
+                    } else {
+                        run::trigger_never();
+                    }
+                    ops::exec(&cache, &w.dirs, &w.op, &Default::default())
+                });
+                shim::set_controller(None);
+                drop(w);
+                for k2 in (k1 + 1)..=t.len() {
+                    *no += 1;
+                    if !shard.mine(*no) {
+                        continue;
+                    }
+                    rep.evaluations += 1;
+                    rep.states += 1;
+                    rep.traces += 1;
+                    rep.count("fault_then_crash_states", 1);
+                    let w = scn::setup(&scn);
+                    let before = w.snapshot();
+                    let cache = w.cache();
+                    let pid = unsafe { libc::fork() };
+                    if pid == 0 {
+                        shim::set_controller(Some(Arc::new(FailThenDie { k1: k1 as u64, kind: trace[k1].kind, action: a, k2: k2 as u64, n: AtomicU64::new(0) })));
+                        let _ = run::as_participant(0, 0, || {
+                            if force {
+                                run::trigger_fire_next(u64::MAX);
+                            } else {
+                                run::trigger_never();
+                            }
+                            ops::exec(&cache, &w.dirs, &w.op, &Default::default())
+                        });
+                        unsafe { libc::_exit(0) };
+                    }
+                    let mut status: libc::c_int = 0;
+                    unsafe { libc::waitpid(pid, &mut status, 0) };
+                    shim::clock_set_ticks(shim::clock_ticks() + 10_000);
+                    let after = w.snapshot();
+                    rep.transitions += k2 as u64;
+                    let mut bad = scn::tree_violations(&w, &before, &after);
+                    bad.extend(scn::followup_violations(&w, false));
+                    for (sig, msg) in bad {
+                        rep.violation(
+                            format!("crash:after-fault-{}", sig),
+                            format!("{} with call {} ({}) answered {:?}, dying instead of call {}: {}", scn.to_json(), k1, trace[k1].func, a, k2, msg),
+                            json!({"fault_then_crash": true, "scenario": scn.to_json()}),
+                        );
+                    }
+                }
+            }
+        }
+    }
+}
+
 /// Number of intercepted calls of the fault-free execution, and its trace.
 pub fn fault_free(scn: &Scn) -> (usize, Vec<Ev>, ops::Res) {
     let w = scn::setup(scn);
@@ -145,7 +244,8 @@ pub fn run(tier: Tier, shard: Shard, rep: &mut Report) {
         a complete read-only value for that key; everything else new is under .kismet_temp or is a kismet directory; a fresh handle's \
         maintenance keeps young temp files and removes stale ones, and 2 h later reclaims all debris of the maintained directory; \
         get/touch/put/set/ensure through a fresh handle obey register semantics. Thorough adds a second crash at every call of the \
-        recovering process's set+maintenance. Non-trivial = death after the first mutating call and before the last call."
+        recovering process's set+maintenance. Error paths too: each publication step (rename/link) of each write scenario is \
+        refused with EXDEV (thorough: every plausible errno) and the process dies at each later call; same oracle. Non-trivial = death after the first mutating call and before the last call."
         .into();
     rep.assumptions = vec![
         "process death, not power loss: the kernel state survives intact (kismet does not sync directories)".into(),
@@ -183,11 +283,17 @@ pub fn run(tier: Tier, shard: Shard, rep: &mut Report) {
             }
         }
     }
+    fault_then_crash_section(tier, shard, rep, &mut no);
     rep.fact("scenarios", json!(scns.len()));
     rep.fact("crash_points_total", json!(no));
 }
 
 pub fn replay(case: &Value, rep: &mut Report) {
+    if case.get("fault_then_crash").is_some() {
+        let mut no = 0;
+        fault_then_crash_section(Tier::Thorough, Shard { index: 0, count: 1 }, rep, &mut no);
+        return;
+    }
     let scn = Scn::from_json(&case["scenario"]);
     let k = case["die_instead_of_call"].as_u64().unwrap_or(0);
     let second = case["second_crash_at"].as_u64();
